@@ -71,11 +71,15 @@ class PGen(Gen):
 
         k = r.random()
         n = r.randint(1, 3)
+        wide = r.random() < 0.15  # wide records / tuples (9-16 columns), as real ntuple-style queries have
+        if wide:
+            n = r.randint(9, 16)
+            self.feat.add("wide-packaging")
         if k < 0.45:
-            return ("tup", [go(d) for _ in range(n)])
+            return ("tup", [go(0 if wide else d) for _ in range(n)])
         if k < 0.6:
-            return ("lst", [go(d) for _ in range(n)])
-        return ("dic", {key: go(d) for key in r.sample(["a", "b", "c", "pt"], n)})
+            return ("lst", [go(0 if wide else d) for _ in range(n)])
+        return ("dic", {key: go(0 if wide else d) for key in r.sample(["a", "b", "c", "pt"] + [f"k{i}" for i in range(14)], n)})
 
 
 def has_pack(shape):
